@@ -13,7 +13,8 @@ LEVEL = 'exploration'
 RULE = (
     'enum: every text of length <= 3 (quick; plus length 4 over the core symbols \\ " CR LF / * a [; thorough: <= 4, and <= 6 over the core symbols) over the '
     '21-symbol syntax alphabet; ONE descriptor = one text run under all 2^7 option combinations (core-symbol texts of '
-    'length 4-6: the 2^4 combinations of the options those symbols can reach x the other three all-off/all-on) and, per '
+    'length 4-6: the 2^4 combinations of the options those symbols can reach x the other three all-off/all-on; length 6: the '
+    'other three at their defaults) and, per '
     'combination, as one str, as every one of the 2^(n-1) chunk lists, as single characters interleaved with empty chunks '
     '(generator), as ("", text, "") and as an io.StringIO line iterator; plus Keyvalues.parse of the same text. '
     'random: Hypothesis texts (<= 400 chars) built from syntax pieces, random option mask, random cut set with extra cuts '
@@ -37,7 +38,7 @@ LEVEL_NOTE = ('The reference is the implementation\'s own single-string run (met
               'totality and the step bound are absolute. Pure-Python tokenizer only.')
 TECHNIQUE = ('bounded exhaustive enumeration + property-based testing (Hypothesis): metamorphic chunk-independence, totality '
              '(only TokenSyntaxError/KeyValError), counted-step linear bound')
-CAPS = (300, 2400)
+CAPS = (600, 2400)
 
 from srctools.tokenizer import Token, Tokenizer, TokenSyntaxError  # noqa: E402  (run.py guarantees the repo tree)
 
@@ -55,7 +56,8 @@ ALL128 = [(m, opts_from_mask(m)) for m in range(128)]
 _OTHER3 = (1 << 1) | (1 << 5) | (1 << 6)       # string_parens, colon_operator, plus_operator
 REL32 = [(m, o) for m, o in ALL128 if (m & _OTHER3) in (0, _OTHER3)]
 DEFAULT_MASK = (1 << 1) | (1 << 2)              # Tokenizer() defaults: string_parens, allow_escapes
-OPTSETS = {'all128': ALL128, 'rel32': REL32}
+REL16 = [(m, o) for m, o in ALL128 if (m & _OTHER3) == (DEFAULT_MASK & _OTHER3)]     # the other three at their defaults
+OPTSETS = {'all128': ALL128, 'rel32': REL32, 'rel16': REL16}
 
 FULL_ALPHABET = ['\\', '"', '\r', '\n', '/', '*', 'a', ' ', '\t', '{', '}', '[', ']', '(', ')', '#', ':', '+', '=', ',', '﻿']
 CORE_ALPHABET = ['\\', '"', '\r', '\n', '/', '*', 'a', '[']
@@ -240,7 +242,7 @@ def enum_cases(tier: str):
     # core symbols: the shortest closed star comment needs 4 characters, so quick adds length 4 on the core alphabet
     for n in ((4,) if tier == 'quick' else (5, 6)):
         for tup in itertools.product(CORE_ALPHABET, repeat=n):
-            yield {'text': ''.join(tup), 'optset': 'rel32'}
+            yield {'text': ''.join(tup), 'optset': 'rel32' if n < 6 else 'rel16'}
 
 
 def enum_runs(tier: str) -> int:
@@ -250,7 +252,7 @@ def enum_runs(tier: str) -> int:
     for n in range(full_max + 1):
         total += 21 ** n * 128 * (2 + (2 if n == 0 else 2 ** (n - 1)) + 3)
     for n in ((4,) if tier == 'quick' else (5, 6)):
-        total += 8 ** n * 32 * (2 + 2 ** (n - 1) + 3)
+        total += 8 ** n * (32 if n < 6 else 16) * (2 + 2 ** (n - 1) + 3)
     return total
 
 
